@@ -1,4 +1,5 @@
 import SqlObjVerif.Lemmas.Joins
+import SqlObjVerif.Lemmas.JoinsXAcc
 /-!
 # C13 — join accessors always mirror the stored relation
 
@@ -157,5 +158,101 @@ example : doSort (fun (x : Nat) a => [[some 2], [some 1], [none], [some 1], [som
     [⟨0, true⟩] [0, 1, 2, 3, 4, 5] = [0, 4, 1, 3, 5, 2] := by decide
 example : related (addLink (addLink ⟨[], [], []⟩ 0 true 1 2) 0 false 2 1) 0 true 1 = [2, 2] := by decide
 example : related (removeLink (addLink (addLink ⟨[], [], []⟩ 0 true 1 2) 0 false 2 1) 0 false 2 1) 0 true 1 = [] := by decide
+
+/-! ## The join accessors as TRANSLATED from `joins.py` compute the hand model's functions
+
+`vlib/extractors/pyjoins.py` translates `doSort`, `getID`, `SOJoin._applyOrderBy`, `SOMultipleJoin.performJoin`,
+`SORelatedJoin.performJoin/add/remove`, `SOSingleJoin.performJoin` from /repo's AST on every run
+(`Extracted/PyJoins.lean`); `Model/JoinsX.lean` runs them with the reference semantics of `Model/PyJoins.lean` on the hand
+model's state (its header lists the assumed interface).  `P.C = modelConn`: the connection answers the link-table /
+foreign-key statements as the hand model does (the statement templates are extracted by `vlib/extractors/graph.py`).
+`hnm`: no attribute name starts with `-`.  `n`: how many nested `doSort` calls are allowed (any large enough number). -/
+open SqlObjVerif.PyJoins (Heap)
+
+
+theorem C13_translated_doSort_eq_model (P : Params) (hnm : ∀ a, (P.nm a).head? ≠ some '-') (v : PVal) (ks : List SortKey)
+    (h : Denotes P.nm v ks) : ∃ n0, ∀ n, n0 ≤ n → ∀ (db : DB) (heap : Heap Hnd) (r c : Nat) (l : List Nat),
+      heap.cells r = some (instList c l) →
+      doSortN P n db heap [.ref r, v] = .ret db (heap.set r (instList c (doSort (valOf P) ks l))) .none :=
+  doSortN_denotes P hnm h
+
+theorem C13_translated_doSort_names_eq_model (P : Params) (hnm : ∀ a, (P.nm a).head? ≠ some '-') (k : SortKey) (ks : List SortKey) :
+    ∃ n0, ∀ n, n0 ≤ n → ∀ (db : DB) (heap : Heap Hnd) (r c : Nat) (l : List Nat), heap.cells r = some (instList c l) →
+      doSortN P n db heap [.ref r, keysVal P.nm (k :: ks)] = .ret db (heap.set r (instList c (doSort (valOf P) (k :: ks) l))) .none :=
+  doSortN_denotes P hnm (keysVal_denotes P.nm k ks)
+
+theorem C13_translated_multipleJoin_eq_model (P : Params) (hnm : ∀ a, (P.nm a).head? ≠ some '-') (hC : P.C = modelConn)
+    (ks : List SortKey) (hob : ObDenotes P.nm P.D.orderBy ks) : ∃ n0, ∀ n, n0 ≤ n → ∀ (db : DB) (k j : Nat),
+      resultIds (multiplePerformJoinX P n db k j) =
+        some (db, instList P.D.other (multipleJoin (valOf P) db P.D.other P.D.fkcol ks j)) := by
+  obtain ⟨n0, h⟩ := multiplePerformJoinX_eq P hnm ks hob
+  refine ⟨n0, fun n hn db k j => ?_⟩
+  rw [h n hn db k j, hC]
+  simp [modelConn, multipleJoin]
+
+theorem C13_translated_relatedJoin_eq_model (P : Params) (hnm : ∀ a, (P.nm a).head? ≠ some '-') (hC : P.C = modelConn)
+    (ks : List SortKey) (hob : ObDenotes P.nm P.D.orderBy ks) : ∃ n0, ∀ n, n0 ≤ n → ∀ (db : DB) (k j : Nat),
+      resultIds (relatedPerformJoinX P n db k j) =
+        some (db, instList P.D.other (relatedJoin (valOf P) db P.D.table P.D.ownFirst ks j)) := by
+  obtain ⟨n0, h⟩ := relatedPerformJoinX_eq P hnm ks hob
+  refine ⟨n0, fun n hn db k j => ?_⟩
+  rw [h n hn db k j, hC]
+  simp [modelConn, relatedJoin, related_def]
+
+theorem C13_translated_add_eq_model (P : Params) (hC : P.C = modelConn) (db : DB) (k j : Nat) (other : PVal) (j' : Nat)
+    (ho : IsId other j') :
+    relatedAddX P db (.obj (.inst k j)) other = .ret (addLink db P.D.table P.D.ownFirst j j') Heap.empty .none := by
+  rw [relatedAddX_eq P db k j other j' ho, hC, addLink_def]
+  rfl
+
+theorem C13_translated_remove_eq_model (P : Params) (hC : P.C = modelConn) (db : DB) (k j : Nat) (other : PVal) (j' : Nat)
+    (ho : IsId other j') :
+    relatedRemoveX P db (.obj (.inst k j)) other = .ret (removeLink db P.D.table P.D.ownFirst j j') Heap.empty .none := by
+  rw [relatedRemoveX_eq P db k j other j' ho, hC, removeLink_def]
+  rfl
+
+theorem C13_translated_single_eq_model (P : Params) (hC : P.C = modelConn) (hmd : P.D.makeDefault = false) (db : DB) (k j : Nat) :
+    singlePerformJoinX P db k j = .ret db Heap.empty
+      (match single db P.D.other P.D.fkcol j with
+       | some i => .obj (.inst P.D.other i)
+       | none => .none) := by
+  rw [singlePerformJoinX_eq, hC, hmd]
+  simp only [modelConn, single, List.filterMap_map, Function.comp_def, id, List.filterMap_some]
+  cases (referrers db P.D.other P.D.fkcol j).head? <;> simp
+
+theorem C13_translated_single_makeDefault (P : Params) (hmd : P.D.makeDefault = true) (db : DB) (k j : Nat)
+    (hn : (P.C.selectJoin db P.D.other P.D.fkcol j).filterMap id = []) :
+    singlePerformJoinX P db k j =
+      .ret (P.C.create db P.D.other P.D.fkcol j).1 Heap.empty (.obj (.inst P.D.other (P.C.create db P.D.other P.D.fkcol j).2)) := by
+  rw [singlePerformJoinX_eq, hn, hmd]
+  rfl
+
+theorem C13_translated_getID_eq_model (P : Params) (db : DB) (v : PVal) (j : Nat) (h : IsId v j) :
+    getIDX P db v = .ok (.int j) := getIDX_isId P db v j h
+
+
+/-! ### Non-vacuity of the translated runs: concrete worlds, evaluated by the kernel -/
+def exPval : Nat → List Char → Option Int := fun j s =>
+  if s = ['x'] then [some 2, some 1, none, some 1, some 2, some 1].getD j none
+  else if s = ['y'] then [some 1, some 2, some 0, some 1, some 0, none].getD j none else none
+def exNm : Nat → List Char := fun a => if a = 0 then ['x'] else ['y']
+def exDb : DB := ⟨[⟨0, 1, [some 7]⟩, ⟨0, 2, [some 7]⟩, ⟨0, 3, [none]⟩, ⟨0, 4, [some 7]⟩, ⟨1, 7, []⟩], [⟨0, 7, 4⟩, ⟨0, 7, 1⟩, ⟨0, 8, 1⟩], []⟩
+def exP (ob : PVal) (md : Bool) : Params := ⟨exPval, exNm, ⟨1, 0, 0, 0, true, ob, md, false⟩, modelConn⟩
+
+example : (∀ a, (exNm a).head? ≠ some '-') := by intro a; unfold exNm; split <;> decide
+example : (match doSortN (exP .none false) 2 exDb (Heap.empty.alloc (instList 0 [0, 1, 2, 3, 4, 5]))
+    [.ref 0, keysVal exNm [⟨0, false⟩, ⟨1, false⟩]] with
+    | .ret _ heap _ => heap.cells 0 | _ => none) = some (instList 0 [2, 5, 3, 1, 4, 0]) := by decide
+example : resultIds (multiplePerformJoinX (exP (.str ['-', 'x']) false) 1 exDb 1 7) = some (exDb, instList 0 [4, 1, 2]) := by decide
+example : resultIds (relatedPerformJoinX (exP (.obj (.desc 0)) false) 1 exDb 1 7) = some (exDb, instList 0 [4, 1]) := by decide
+example : (match relatedAddX (exP .none false) exDb (.obj (.inst 1 7)) (.int 9) with
+    | .ret db _ _ => related db 0 true 7 | _ => []) = [4, 1, 9] := by decide
+example : (match singlePerformJoinX (exP .none false) exDb 1 7 with | .ret _ _ v => some v | _ => none) = some (.obj (.inst 0 1)) := by decide
+example : (match singlePerformJoinX (exP .none true) exDb 1 8 with
+    | .ret db _ v => some (v, referrers db 0 0 8) | _ => none) = some (.obj (.inst 0 8), [8]) := by decide
+example : Denotes exNm (PyJoins.Val.ofList [.obj (.fld 1), PyJoins.Val.ofList [.str ['-', 'x'], .str ['y']], .str ['x']])
+    ([⟨1, false⟩] ++ (([⟨0, true⟩] ++ [⟨1, false⟩]) ++ [⟨0, false⟩])) :=
+  .listN _ _ _ _ _ (.leaf _ _ (.fld 1))
+    (.listN _ _ _ _ _ (.listN _ _ _ _ _ (.leaf _ _ (.str ⟨0, true⟩)) (.list1 _ _ (.str ⟨1, false⟩))) (.list1 _ _ (.str ⟨0, false⟩)))
 
 end SqlObjVerif.Joins
